@@ -10,6 +10,10 @@
         {"e":"send","src":S,"dst":D}           the module called send_am(D) while running on S
         {"e":"deliver","src":S,"dst":D}        the harness delivered that message (msg_dispatch on D)
         {"e":"end","cb":[c0,..],"st":[s0,..]}  nothing in flight any more; callbacks fired / taskpool_state per rank
+       executions of the concurrent mode (threads of one process, UserTriggerImpl.tla) have two more events, which carry
+       no obligation at the property level (the sends they cause are `send` events):
+        {"e":"op","t":T,"op":"add"|"trig"|"msg"|"tsk"|"chk","v":V,"r":R}   thread T's call returned R
+        {"e":"cb","r":R}                       the termination callback fired on R
    (b) one line per (N, root, delivery order) for the sweep over large N:
         {"e":"run","n":N,"root":R,"edges":[[S,D,K],..]}   edges in delivery order; K = index (1-based) of the delivery
                                                           that notified S, 0 when S is the root
@@ -45,6 +49,8 @@ TDeliver == /\ IsEv("deliver") /\ ~ended
             /\ notified' = [notified EXCEPT ![Ev.dst] = @ + 1]
             /\ NoneTwice(n, root, notified')                                   \* no process receives two
             /\ UNCHANGED <<n, ended, root>>
+TOp == /\ IsEv("op") /\ ~ended /\ UNCHANGED <<n, tflight, ended, root, notified>>
+TCb == /\ IsEv("cb") /\ ~ended /\ root # -1 /\ Ev.r \in Procs /\ UNCHANGED <<n, tflight, ended, root, notified>>
 TEnd == /\ IsEv("end") /\ ~ended /\ root # -1 /\ tflight = <<>>
         /\ EveryOtherOnce(n, root, notified)                                   \* every other process exactly one
         /\ ended' = TRUE /\ UNCHANGED <<n, tflight, root, notified>>
@@ -64,7 +70,7 @@ RunOK(nn, rt, edges) ==
 TRun == /\ IsEv("run") /\ ended /\ (RunOK(Ev.n, Ev.root, Ev.edges) = TRUE)
         /\ UNCHANGED <<n, tflight, ended, root, notified>>
 
-TNext == /\ TReset \/ TCfg \/ TReady \/ TTrigger \/ TSend \/ TDeliver \/ TEnd \/ TRun
+TNext == /\ TReset \/ TCfg \/ TReady \/ TTrigger \/ TSend \/ TDeliver \/ TOp \/ TCb \/ TEnd \/ TRun
          /\ UNCHANGED <<N, st, delayed, flight, cb>>
 TSpec == TInit /\ [][TNext]_tvars
 AcceptExit == (l > Len(TraceLog)) => (PrintT("VERIF-ACCEPTED") /\ TLCSet("exit", TRUE))
